@@ -30,7 +30,7 @@ RULE = ("write histories on a fresh temp directory: creation time (aligned / una
         "index, thorough = every byte offset of both files, each followed by queries; after a third of the crash phases an odd phase: the last idx file removed (log.rmidx), then garbage appended to the last data / idx file "
         "(log.raw: empty lines, lines with too few fields, every column non-numeric / overflowing / signed, CR endings, no final LF, index "
         "entries with arbitrary seconds and offsets, torn entries) - outside the property, spec `?`, model must agree; 15% of the cases with the pid "
-        "suffix in the file names, 12% with foreign files / directories in the log directory (log.touch / log.mkdir), invalid limits, invalid "
+        "suffix in the file names, 25% with another application name (glob metacharacters [x] * ? \\, dots, blanks, unicode), 12% with foreign files / directories in the log directory (log.touch / log.mkdir), invalid limits, invalid "
         "searcher arguments; fixed slices inside each known-finding region. "
         "non-trivial = at least one roll and one non-empty result; distinct by (limits, op-kind sequence, number of cuts)")
 
@@ -134,6 +134,9 @@ def rand_query(rng, sim, sid, now_sec):
     return f"log.from {sid} {b} {rng.choice([0, 1, 2, 3, 5, 8, 100, 100000])}"
 
 
+# application names: an opaque string for the log - glob metacharacters, dots (become dashes), blanks, unicode
+APPS = ["orders[blue]", "[x]", "x[a-c]z", "a*b", "what?", "back\\slash", "my.app.v2", "app-1", "sp ace", "名前", "{a,b}", "tilde~", "(paren)", "%41pp", "a.b[c]*"]
+
 FOREIGN = ["other.txt", "v-app-metrics.log.lck", "zzz-metrics.log.2030-03-17", "v-app-metrics.log", "README", "v-app-metrics.logx"]
 FOREIGN_DIRS = ["sub", "v-app-metrics.log.d"]
 
@@ -233,7 +236,8 @@ def gen_case(rng, cid, tier, forced=None):
     if kind == "reopen":
         max_size, max_files = rng.choice([1, 60, 110, 200]), rng.choice([3, 4, 6, 6])
     pid = rng.random() < 0.15
-    ops = [f"clock {t0}", f"log.new {max_size} {max_files}" + (" pid" if pid else "")]
+    app = (" app=" + name_tok(rng.choice(APPS))) if rng.random() < 0.25 else ""
+    ops = [f"clock {t0}", f"log.new {max_size} {max_files}" + (" pid" if pid else "") + app]
     if rng.random() < 0.03:
         ops.insert(1, f"log.new {rng.choice([0, 5])} {rng.choice([0, 0, 3])}".replace("log.new 5 3", "log.new 0 3"))   # invalid limits: err
     if rng.random() < 0.03:
